@@ -72,6 +72,16 @@ def cases(draw):
         return opts[draw(st.integers(0, len(opts) - 1))]
     sigs = []
     for _ in range(draw(st.integers(1, 3))):
+        if structs and draw(st.integers(0, 2)) == 0:
+            # register pressure: k leading scalars of one class, then a struct that may straddle the last register of that
+            # class, with a return value that may need a hidden pointer argument
+            cls = draw(st.sampled_from(["i64", "i64", "f64", "u32"]))
+            k = draw(st.integers(3, 7))
+            tail = [a_type() for _ in range(draw(st.integers(0, 2)))]
+            params = ([cls] * k + [structs[draw(st.integers(0, len(structs) - 1))]["name"]] + tail)[:8]
+            ret = structs[draw(st.integers(0, len(structs) - 1))]["name"] if draw(st.booleans()) else a_type(True)
+            sigs.append({"params": params, "ret": ret, "dir": draw(st.sampled_from(["capy-calls-c", "c-calls-capy"]))})
+            continue
         np_ = draw(st.integers(0, 8))
         sigs.append({"params": [a_type() for _ in range(np_)], "ret": a_type(True), "dir": draw(st.sampled_from(["capy-calls-c", "c-calls-capy"]))})
     return {"structs": structs, "sigs": sigs, "seed": draw(st.integers(0, 1000))}
@@ -79,6 +89,33 @@ def cases(draw):
 
 def strategy(profile):
     return cases()
+
+
+def sweep_cases():
+    """register-file boundaries, systematically: k leading scalars of one class, then a one- or two-eightbyte struct, for
+    every return class (none, scalar, <= 16 bytes, > 16 bytes = hidden pointer), in both directions"""
+    shapes = [["i64", "i64"], ["i32", "i64"], ["f64", "f64"], ["f64", "i64"], ["i64", "f64"], ["i64"], ["f32", "f32", "i32"], ["u8", "i64"]]
+    rets = [None, "i64", ["i64", "i64"], ["i64", "i64", "i64"], ["f64", "f64", "f64"], ["f64", "i32"]]
+    structs, names = [], {}
+
+    def sname(fields):
+        key = tuple(fields)
+        if key not in names:
+            names[key] = f"S{len(names)}"
+            structs.append({"name": names[key], "fields": [{"t": t, "n": None} for t in fields]})
+        return names[key]
+    sigs = []
+    for cls in ("i64", "f64"):
+        for k in range(0, 8):
+            for sh in shapes:
+                for r in rets:
+                    ret = "void" if r is None else r if isinstance(r, str) else sname(r)
+                    for d in ("capy-calls-c", "c-calls-capy"):
+                        sigs.append({"params": [cls] * k + [sname(sh)], "ret": ret, "dir": d})
+    out = []
+    for i in range(0, len(sigs), 6):
+        out.append({"structs": structs, "sigs": sigs[i:i + 6], "seed": i})
+    return out
 
 
 # ------------------------------------------------------------------------------------------------
@@ -352,6 +389,10 @@ def sig_class(case):
                 out.add(("struct<=16" if sz <= 16 else "struct>16") + ("-mixed" if len(kinds) == 2 else "-sse" if kinds == {True} else "-int"))
         if len(sig["params"]) > 6:
             out.add("stack-args")
+        if len(sig["params"]) >= 4 and len(set(sig["params"][:3])) == 1 and any(p_ in structs for p_ in sig["params"]):
+            out.add("register-pressure-before-struct")
+        if sig["ret"] in structs and struct_size(structs[sig["ret"]]) > 16:
+            out.add("hidden-return-pointer")
         out.add(sig["dir"])
     return out
 
@@ -413,7 +454,8 @@ def replay_payload(payload, scratch):
     return None
 
 
-RULE = ("1-3 signatures per program, each with 0-8 parameters and a return type drawn from i8..u64, isize, usize, f32, f64, bool, char, ^i32, ?^i32 and 0-3 generated structs (1-5 "
+RULE = ("a deterministic sweep of register-file boundaries (0-7 leading i64 / f64 scalars, then one of 8 small struct shapes, x 6 return classes incl. hidden-pointer returns, x both directions) "
+        "and generated programs: 1-3 signatures per program, each with 0-8 parameters and a return type drawn from i8..u64, isize, usize, f32, f64, bool, char, ^i32, ?^i32 and 0-3 generated structs (1-5 "
         "fields of scalars or arrays of 2-7 scalars, <= 64 bytes, all-integer / all-float / mixed), direction Capy->C (extern) or C->Capy (function pointer); every scalar leaf has its own "
         "constant, floats compared as bit patterns. Non-trivial = at least one struct parameter or return value; distinct by program.")
 
@@ -428,7 +470,9 @@ def run(ctx):
             ctx.violations[k] = ("replayed case still fails", payload)
         shutil.rmtree(scratch, ignore_errors=True)
         return ctx.finish(RULE, False, [])
-    total = 20000 if ctx.thorough else 960
+    sweep = sweep_cases()
+    infra0 = core.run_batches(ctx, "pyv.c19", sweep)
+    total = 20000 if ctx.thorough else 640
     infra = core.hypothesis_search(ctx, "pyv.c19", total)
     scratch = core.make_scratch("C19", "kf")
     rc = ctx.finish(RULE, False, [
@@ -436,4 +480,4 @@ def run(ctx):
         "the object is produced with --no-exec and linked with the gcc-compiled helper by the check itself",
     ], replayer=lambda p: replay_payload(p, scratch), min_nontrivial=50 if not ctx.collect_all() else 0)
     shutil.rmtree(scratch, ignore_errors=True)
-    return 2 if infra and rc == 0 else rc
+    return 2 if (infra or infra0) and rc == 0 else rc
